@@ -7,6 +7,7 @@ import (
 
 type muCore struct {
 	locked bool
+	clock  vclock
 	real   sync.Mutex
 }
 
@@ -14,12 +15,14 @@ type rwCore struct {
 	writer         bool
 	writersWaiting int
 	readers        int
+	wclock, rclock vclock
 	real           sync.RWMutex
 }
 
 type wgCore struct {
-	n    int
-	real sync.WaitGroup
+	n     int
+	clock vclock
+	real  sync.WaitGroup
 }
 
 // Mutex replaces sync.Mutex (zero value ready to use).
